@@ -188,4 +188,16 @@ Proof. intros HB Hs. unfold mprocess_ctor_raises. rewrite orb_false_iff, negb_fa
 (* a basis whose flag is False is rejected whatever is asked *)
 Theorem mprocess_ctor_flag_guard st d B m (hss : nat -> rmat F) required : mprocess_ctor_raises st false d B m hss required = true.
 Proof. reflexivity. Qed.
+(* ------------------------------------------------------------------ link to C06's notion of complete positivity
+   C06 proves (C06_kraus_form_is_cp) for every Kraus-form map:  cpsd (d*d) (choi_of_hs d B (hs_of_kraus d B Ks)),  where
+   cpsd n H := hermitian n H /\ PSD F (n+n) (embed F n H).  The CP verdict is true for every such map at every tolerance >= 0, and at
+   tolerance 0 the verdict IS that PSD statement. *)
+Theorem gate_is_cp_of_embed_psd d B (HS : rmat F) atol : basis_hermitian d B -> 0 <= atol ->
+  PSD F (d * d + d * d) (embed F (d * d) (choi_of_hs d B HS)) -> gate_is_cp d B HS atol = true.
+Proof. intros HB Ha P. apply (gate_is_cp_iff F d B HS atol HB Ha). intros x.
+  apply add_nonneg; [exact (proj1 (embed_PSD_iff F (d * d) _) P x)|]. apply k_mul; [exact Ha|apply cnorm2_nonneg]. Qed.
+Theorem gate_is_cp_0_iff_embed_psd d B (HS : rmat F) : basis_hermitian d B ->
+  (gate_is_cp d B HS 0 = true <-> PSD F (d * d + d * d) (embed F (d * d) (choi_of_hs d B HS))).
+Proof. intros HB. unfold gate_is_cp. rewrite (mutil_is_psd_0 F (d * d) _ (choi_hermitian F d B HS HB)).
+  symmetry. apply embed_PSD_iff. Qed.
 End C01Main.
